@@ -362,7 +362,11 @@ func c01Child(args []string) int {
 }
 
 func c01NestRun(c *engine.Ctx, in []byte, args map[string]string) {
-	ctx, cancel := context.WithTimeout(context.Background(), 600*time.Second)
+	limit := 600 * time.Second
+	if d, _ := strconv.Atoi(args["depth"]); d <= 1000 {
+		limit = 150 * time.Second // milliseconds of linear-time work
+	}
+	ctx, cancel := context.WithTimeout(context.Background(), limit)
 	defer cancel()
 	cmd := exec.CommandContext(ctx, os.Args[0], "C01", "--child", "nest", args["lang"], string(in), args["depth"], args["stack"])
 	cmd.Env = append(os.Environ(), "GOTRACEBACK=single", "GOMAXPROCS=2")
@@ -372,7 +376,7 @@ func c01NestRun(c *engine.Ctx, in []byte, args map[string]string) {
 	}
 	so := string(out)
 	if ctx.Err() != nil {
-		c.Fail("nest-timeout", fmt.Sprintf("template %s/%s at depth %s did not finish within 600 s (linear-time work takes well under a second)", args["lang"], in, args["depth"]))
+		c.Fail("nest-timeout", fmt.Sprintf("template %s/%s at depth %s did not finish within %v (linear-time work takes well under a second)", args["lang"], in, args["depth"], limit))
 		return
 	}
 	if i := strings.Index(so, "ORACLE "); i >= 0 {
